@@ -423,13 +423,16 @@ class ValueWrapper(Term):
             return cls.get_formatted_value(value.isoformat(), ctx)
         if isinstance(value, str):
             value = value.replace(quote_char, quote_char * 2)
+            if ctx.dialect == Dialects.MYSQL:
+                # MySQL treats the backslash as an escape character inside string literals
+                value = value.replace("\\", "\\\\")
             return format_quotes(value, quote_char)
         if isinstance(value, bool):
             return str(value).lower()
         if isinstance(value, uuid.UUID):
             return cls.get_formatted_value(str(value), ctx)
         if isinstance(value, (dict, list)):
-            return format_quotes(json.dumps(value), quote_char)
+            return cls.get_formatted_value(json.dumps(value), ctx)
         if value is None:
             return "null"
         return str(value)
